@@ -144,6 +144,8 @@ def check(run, repo, world):
     m, fn, _ = world.func(SEQ + ".SetEventSchemes")
     fn = normalise(fn, world, SEQ, primitives=("check_bad_rsp",),
                    aliases="params")
+    from ..normal import reduce_thunk_calls
+    fn = reduce_thunk_calls(fn)
     F = SEQ + ".SetEventSchemes"
     cfg = gen_cfg(fn, F)
     ys = yields_of(cfg, world, SEQ)
